@@ -292,6 +292,14 @@ func b2i(b bool) int64 {
 
 func constLit(v int64) string { return fmt.Sprint(v) }
 
+// otherType: an integer type different from t (receiver / parameter types next to a result of type t)
+func otherType(t string) string {
+	if t == "int32" {
+		return "int8"
+	}
+	return "int32"
+}
+
 func c04Source(fns []*c04Fn) string {
 	var b strings.Builder
 	b.WriteString("package main\n\n")
@@ -422,6 +430,10 @@ func c04Functions(c *Ctx, r *rand.Rand) []*c04Fn {
 			add(&c04Fn{T: t, Op: "id", Pos: "slice-elem-any", Arity: 0, Fixed: "a", X: k}, fmt.Sprintf("func FN() any {\n\ts := []%s{%s}\n\treturn s[0]\n}", t, lit))
 			add(&c04Fn{T: t, Op: "id", Pos: "map-elem-any", Arity: 0, Fixed: "a", X: k}, fmt.Sprintf("func FN() any {\n\tm := map[string]%s{\"k\": %s}\n\treturn m[\"k\"]\n}", t, lit))
 			add(&c04Fn{T: t, Op: "id", Pos: "result-any", Arity: 0, Fixed: "a", X: k}, fmt.Sprintf("func FN_r() %s { return %s }\nfunc FN() any { return FN_r() }", t, lit))
+			// a constant result of a function / method that has parameters of OTHER types at the same positions
+			add(&c04Fn{T: t, Op: "id", Pos: "result-after-float-param-any", Arity: 0, Fixed: "a", X: k}, fmt.Sprintf("func FN_rp(x float64) %s { return %s }\nfunc FN() any { return FN_rp(2.5) }", t, lit))
+			add(&c04Fn{T: t, Op: "id", Pos: "result-after-string-bool-param-any", Arity: 0, Fixed: "a", X: k}, fmt.Sprintf("func FN_rq(s string, b bool) (%s, %s) { return %s, %s }\nfunc FN() any {\n\t_, y := FN_rq(\"s\", true)\n\treturn y\n}", t, t, lit, lit))
+			add(&c04Fn{T: t, Op: "id", Pos: "method-result-any", Arity: 0, Fixed: "a", X: k}, fmt.Sprintf("func (s *S_%s) FN_m(x uint8) %s { return %s }\nfunc FN() any { return (&S_%s{}).FN_m(1) }", otherType(t), t, lit, otherType(t)))
 			add(&c04Fn{T: t, Op: "id", Pos: "decl-then-assign", Arity: 0, Fixed: "a", X: k}, fmt.Sprintf("func FN() %s {\n\tvar x %s\n\tx = %s\n\treturn x\n}", t, t, lit))
 			add(&c04Fn{T: t, Op: "id", Pos: "param", Arity: 0, Fixed: "a", X: k}, fmt.Sprintf("func FN() %s { return id_%s(%s) }", t, t, lit))
 			add(&c04Fn{T: t, Op: "id", Pos: "result", Arity: 0, Fixed: "a", X: k}, fmt.Sprintf("func FN() %s { return %s }", t, lit))
